@@ -464,7 +464,8 @@ func viewSeed(r *rand.Rand, e gen.Env, name string, l int) []byte {
 		b = gen.ICMP4Msg(r, e, "redirect")
 		if r.Intn(2) == 0 { // the "router advertisement"-like layout the view documents
 			n := r.Intn(4)
-			b = append([]byte{5, 0, 0, 0, byte(n), byte([]int{4, 10, 2}[r.Intn(3)]), 0, 30}, gen.RandBytes(r, n*40)...)
+			// (the view's IsValid demands type 137: it compares with the ICMPv6 redirect constant)
+			b = append([]byte{[]byte{137, 137, 5}[r.Intn(3)], 0, 0, 0, byte(n), byte([]int{4, 10, 2}[r.Intn(3)]), 0, 30}, gen.RandBytes(r, n*40)...)
 		}
 	case "ICMP6RouterSolicitation":
 		b = gen.ICMP6Msg(r, e, "rs", src, dst, mac)
@@ -623,6 +624,7 @@ func c01Views(c *wk.Ctx) {
 				continue
 			}
 			c.Obs("views_valid", 1)
+			c.Obs("views_valid:"+vt.name, 1)
 			for _, m := range methods {
 				mname := vt.typ.Method(m).Name
 				c.Begin(idx, vt.name+"."+mname, in)
